@@ -314,10 +314,10 @@ func init() {
 				{Name: "race", Mode: "free", Race: true, Shards: 16, Timeout: 60 * time.Minute},
 				{Name: "crash", Mode: "crash", Shards: 16, Timeout: 60 * time.Minute},
 				{Name: "fault", Mode: "fault", Shards: 12, Timeout: 60 * time.Minute},
-				{Name: "orphan", Mode: "orphan", Shards: 9, Timeout: 60 * time.Minute},
+				{Name: "orphan", Mode: "orphan", Shards: 12, Timeout: 60 * time.Minute},
 			}
 		},
-		Rule: "Agent-level executions (real Agent.Run, real jsondb directory, real unix socket) of generated DAGs (<=4 steps, retries, continueOn, preconditions, handlers, 20% with a stop). (1) LIVE: at quiescent barriers of the controller (every worker parked in a gate or exited) the status is fetched through client.GetCurrentStatus over the socket and compared with the ground truth of the scripted executor: DAG running, a step with an open Run() reported running, no step reported finished/failed before its attempt returned, live retry count == attempts-1. (2) FINAL: after Agent.Run returned a FRESH store reads the run back from disk (FindByRequestID + ReadStatusRecent) and every field is compared with the in-memory final node states and the execution counts (DAG status, per-step status, retry count, log path set and existing, start<=finish, error text iff failed, handler nodes). (2b) FAULT INJECTION at the store boundary: for each generated DAG every history write #k of the run is delayed by 40 ms in turn (a descheduled writer goroutine / slow disk); a write that reaches the store after Close or a stale last line is a violation, and while the write is held back client.GetLatestStatus must report the run as running (the run is alive and has not recorded that status yet - also for the final write). (5) ORPHAN pass: the agent alone is killed with kill(2) while its second step executes (the step, in a process group of its own, lives on; with handlers, with output:); then the same checks as after a crash: status, daemon, new start. (3) CRASH pass (fault enumeration): the real `blackdagger start` of a 3-step DAG with a success and an exit handler (thorough: also 1- and 2-step DAGs, a retried step, an output variable) is SIGKILLed by the ptrace supervisor before EVERY watched system call of its life under the data directory, the log directory and its socket (about 60), and every history write is additionally torn; after each kill: client.GetLatestStatus (fresh stores) must answer, not with running, and not with succeeded unless every step's and the handler's END marker exists; client.GetAllStatus must work; a real scheduler.New daemon over the directory ticked at the DAG's next scheduled minute must spawn a start (recorder executable); a second `blackdagger start` must exit 0 and complete every step. (4) FAULT pass: while a real run is in progress one accept(2) on its status socket is made to fail by the supervisor (EMFILE, ENFILE, ENOBUFS, ECONNABORTED; the first three accepts in turn): the run must still be reported running (latest and live status) and `blackdagger stop` must still end it. Non-trivial = every executed case (each has >=1 live query or a persisted final status compared). Distinct = (mode, case, event order).",
+		Rule: "Agent-level executions (real Agent.Run, real jsondb directory, real unix socket) of generated DAGs (<=4 steps, retries, continueOn, preconditions, handlers, 20% with a stop). (1) LIVE: at quiescent barriers of the controller (every worker parked in a gate or exited) the status is fetched through client.GetCurrentStatus over the socket and compared with the ground truth of the scripted executor: DAG running, a step with an open Run() reported running, no step reported finished/failed before its attempt returned, live retry count == attempts-1. (2) FINAL: after Agent.Run returned a FRESH store reads the run back from disk (FindByRequestID + ReadStatusRecent) and every field is compared with the in-memory final node states and the execution counts (DAG status, per-step status, retry count, log path set and existing, start<=finish, error text iff failed, handler nodes). (2b) FAULT INJECTION at the store boundary: for each generated DAG every history write #k of the run is delayed by 40 ms in turn (a descheduled writer goroutine / slow disk); a write that reaches the store after Close or a stale last line is a violation, and while the write is held back client.GetLatestStatus must report the run as running (the run is alive and has not recorded that status yet - also for the final write). (5) ORPHAN pass: the agent alone is killed with kill(2) while its second step executes (the step, in a process group of its own, lives on; with handlers, with output:; at 0/40/400 ms into the step, and once with the killed agent left unreaped - a zombie whose process ID still exists - while the checks are made); then the same checks as after a crash: status, daemon, new start. (3) CRASH pass (fault enumeration): the real `blackdagger start` of a 3-step DAG with a success and an exit handler (thorough: also 1- and 2-step DAGs, a retried step, an output variable) is SIGKILLed by the ptrace supervisor before EVERY watched system call of its life under the data directory, the log directory and its socket (about 60), and every history write is additionally torn; after each kill: client.GetLatestStatus (fresh stores) must answer, not with running, and not with succeeded unless every step's and the handler's END marker exists; client.GetAllStatus must work; a real scheduler.New daemon over the directory ticked at the DAG's next scheduled minute must spawn a start (recorder executable); a second `blackdagger start` must exit 0 and complete every step. (4) FAULT pass: while a real run is in progress one accept(2) on its status socket is made to fail by the supervisor (EMFILE, ENFILE, ENOBUFS, ECONNABORTED; the first three accepts in turn): the run must still be reported running (latest and live status) and `blackdagger stop` must still end it. Non-trivial = every executed case (each has >=1 live query or a persisted final status compared). Distinct = (mode, case, event order).",
 		Assumptions: []string{"live status is judged only at quiescent barriers, never while a status flip is in flight",
 			"node-level labels of a crashed run are not judged (only the DAG-level label is in the statement)"},
 	})
